@@ -89,9 +89,11 @@ theorem value_of_key (cfg : Cfg) {s s' : St} {l : Label} {v : Nat} (hv : VInv s)
         obtain ⟨e, he, -⟩ := hv.loading_own t c k eid hpc
         unfold save at hs
         rw [he] at hs
-        simp only [Prod.mk.injEq, Out.value.injEq] at hs
-        obtain ⟨rfl, rfl⟩ := hs
-        exact ⟨c, k, by simp [requested, hpc], by simp [setPc]⟩
+        simp only at hs
+        split at hs <;>
+        · simp only [Prod.mk.injEq, Out.value.injEq] at hs
+          obtain ⟨rfl, rfl⟩ := hs
+          exact ⟨c, k, by simp [requested, hpc], by simp [setPc]⟩
       · simp at hs
       · simp at hs
     · exact absurd hs (by simp)
@@ -190,15 +192,13 @@ theorem step_stable (cfg : Cfg) {s s' : St} {l : Label} {o : Out} (hv : VInv s)
       · simp only [Option.some.injEq] at hs
         rw [← fst_of_eq hs]
         unfold save; rw [he]
-        exact stable_set_nonvalid _ _ e _ he (by rw [hst]; simp) rfl rfl
+        simp only
+        split <;> exact stable_set_nonvalid _ _ e _ he (by rw [hst]; simp) rfl rfl
       all_goals
         simp only [Option.some.injEq, Prod.mk.injEq] at hs
         obtain ⟨rfl, -⟩ := hs
-        have hu : (unmap s.heap c k)[eid]? = some { e with inMap := false } := by
-          rw [unmap_get he]; simp [hc, hk]
-        unfold recover; rw [hu]
-        exact (sim_unmap s.heap c k).stable.trans
-          (stable_set_nonvalid _ _ _ _ hu (by simp [hst]) rfl rfl)
+        unfold recover; rw [he]
+        exact stable_set_nonvalid _ _ e _ he (by rw [hst]; simp) rfl rfl
     · exact absurd hs (by simp)
   | release c =>
     simp only [step] at hs
@@ -275,25 +275,11 @@ theorem lookup_none_of_forall {h : List Entry} {c k : Nat}
     · simp [h2]
   · simp [h1]
 
-theorem recover_lookup_none {s : St} (hv : VInv s) {t c k eid : Nat} (hpc : s.pc t = .loading c k eid) :
-    lookup (recover s t c k eid).heap c k = none := by
-  apply lookup_none_of_forall
-  have hun : ∀ e ∈ unmap s.heap c k, e.cache = c → e.key = k → e.inMap = false := by
-    intro e he hc hk
-    simp only [unmap, List.mem_map] at he
-    obtain ⟨a, -, rfl⟩ := he
-    split
-    · rfl
-    · rename_i hn; split at hc <;> split at hk <;> simp_all
-  obtain ⟨e0, he0, hc0, hk0, -⟩ := hv.loading_own t c k eid hpc
-  have hu : (unmap s.heap c k)[eid]? = some { e0 with inMap := false } := by
-    rw [unmap_get he0]; simp [hc0, hk0]
-  unfold recover
-  rw [hu]
-  intro e he hc hk
-  simp only [setPc] at he
-  rcases List.mem_or_eq_of_mem_set he with he | rfl
-  · exact hun e he hc hk
-  · rfl
+/-- after a failed load the loader's own entry is abandoned and in no map; the other entries are untouched -/
+theorem recover_heap {s : St} (hv : VInv s) {t c k eid : Nat} (hpc : s.pc t = .loading c k eid) :
+    ∃ e, s.heap[eid]? = some e ∧ e.cache = c ∧ e.key = k ∧
+      (recover s t c k eid).heap = s.heap.set eid { e with st := .abandoned, inMap := false } := by
+  obtain ⟨e, he, hc, hk, -⟩ := hv.loading_own t c k eid hpc
+  exact ⟨e, he, hc, hk, by unfold recover; rw [he]; rfl⟩
 
 end SV.Cache
